@@ -38,6 +38,8 @@ type World struct {
 	nfuncs int
 	// functions whose file imports "testing" (test support shipped as non-test file)
 	TestSupport map[*ssa.Function]bool
+	// Normalised: what normalize.go rewrote (in the overlay) before loading
+	Normalised []string
 }
 
 // hardFail: the checker could not do its job (exit 2, never "property holds").
@@ -57,6 +59,16 @@ type loadOpts struct {
 func load(o loadOpts) *World {
 	env := append(os.Environ(), "GOWORK=off", "GOFLAGS=-mod=mod", "GOPROXY=off", "GOSUMDB=off", "GOTOOLCHAIN=local")
 	env = append(env, o.env...)
+	// loops over literal tables of functions are analysed in their unrolled form (normalize.go); in memory only
+	var normNotes []string
+	if abs, err := filepath.Abs(o.repo); err == nil {
+		o.overlay, normNotes = normalizeRepo(abs, o.overlay)
+		if d := os.Getenv("XNORMDUMP"); d != "" {
+			for k, v := range o.overlay {
+				os.WriteFile(filepath.Join(d, strings.ReplaceAll(strings.TrimPrefix(k, abs+"/"), "/", "_")), v, 0o644)
+			}
+		}
+	}
 	cfg := &packages.Config{
 		Mode:    packages.LoadAllSyntax,
 		Dir:     o.repo,
@@ -71,7 +83,7 @@ func load(o loadOpts) *World {
 	if len(pkgs) == 0 {
 		die("load: zero packages")
 	}
-	w := &World{Repo: o.repo, Pkgs: map[string]*packages.Package{}, SPkgs: map[string]*ssa.Package{}, ByKey: map[string]*ssa.Function{}, TestSupport: map[*ssa.Function]bool{}}
+	w := &World{Normalised: normNotes, Repo: o.repo, Pkgs: map[string]*packages.Package{}, SPkgs: map[string]*ssa.Package{}, ByKey: map[string]*ssa.Function{}, TestSupport: map[*ssa.Function]bool{}}
 	var roots []*packages.Package
 	for _, p := range pkgs {
 		for _, e := range p.Errors {
